@@ -269,6 +269,9 @@ impl BasicLexer {
                     if !is_basic_digit(pk) {
                         // Not an exponent after all: the letter starts the next token.
                         exp = false;
+                        if ch == 'D' {
+                            digits -= 8;
+                        }
                         s.pop();
                         self.chars.push_front(ch);
                         break;
